@@ -6,24 +6,25 @@
      wt t x         x is a value of t as the code stores it (BTreeMap in id order, ranges, lengths < 2^32)
      stage1 t       primitives, string, wstring, enum, sequence, array, FINAL structs, no optional member
      stage2 t       stage1 + APPENDABLE structs + optional members      (stage 3 = mutable structs, unions)
-     known_class v t x   0, or the recorded defect class of the case (1 char8 >= 0x80, 2 float128 in XCDR1,
-                         3 optional member in XCDR1, 4 mutable struct / union somewhere in the type) *)
+     known_class v t x   0, or the recorded defect class of the case (3 optional member in XCDR1,
+                         4 mutable struct / union somewhere in the type; the former classes 1 char8 >= 0x80
+                         and 2 float128 in XCDR1 were repaired in /repo: c6ffb24, 0b5427b)
+   A char8 value is one octet (0..255, `wt`): the repaired serializer truncates a Rust char above U+00FF. *)
 From DustDDS Require Import Base.Machine Xcdr.XcdrBytes Xcdr.XcdrModel Xcdr.XcdrProps Xcdr.XcdrProofs.
 Open Scope Z_scope.
 
-(* S1: both XCDR versions, both byte orders *)
+(* S1: both XCDR versions, both byte orders; no recorded class is left in S1 *)
 Theorem C09_roundtrip_S1 : forall (v : ver) (e : endian) (t : ty) (x : val),
   is_aggr t = true -> wf_ty t = true -> stage1 t = true -> wt t x = true ->
-  known_class v t x = 0%N ->
   exists bytes, encode v e t x = Ok bytes /\ decode t bytes = Ok x.
 Proof. exact roundtrip_S1. Qed.
 
-(* in S1 only the classes 1 (char8) and 2 (float128 / XCDR1) can occur *)
 Theorem C09_S1_classes : forall (v : ver) (t : ty) (x : val), stage1 t = true ->
-  known_class v t x = 0%N \/ known_class v t x = 1%N \/ known_class v t x = 2%N.
+  known_class v t x = 0%N.
 Proof. exact stage1_known. Qed.
 
-(* S2: appendable structures (DHEADER in XCDR2), optional members *)
+(* S2: appendable structures (DHEADER in XCDR2), optional members; the only class left in S2 is
+   3 (XCDR1 with an optional member somewhere) *)
 Theorem C09_roundtrip_S2 : forall (v : ver) (e : endian) (t : ty) (x : val),
   is_aggr t = true -> wf_ty t = true -> stage2 t = true -> wt t x = true ->
   known_class v t x = 0%N ->
@@ -53,22 +54,22 @@ Proof. exact encode_shape. Qed.
 (* ... and on every S1/S2 sample outside the classes that count is exactly the number of bytes
    behind the position at which the deserializer stops (what the correspondence oracle checks) *)
 Theorem C09_padding_is_reader_rest : forall (v : ver) (e : endian) (t : ty) (x : val),
-  is_aggr t = true -> tgood v t = true -> wt t x = true -> val_nonascii_char x = false ->
+  is_aggr t = true -> tgood v t = true -> wt t x = true ->
   exists bytes p, encode v e t x = Ok bytes /\ decode_end t bytes = Some p /\
                   nth 3 bytes 0 = blen bytes - 4 - p.
 Proof. exact padding_is_reader_rest. Qed.
 
 (* the recorded classes are genuine: a well-typed value of a well-formed type in the class
    that does NOT come back (refutes = wf, wt, class k, encode succeeds, decode (encode x) <> Ok x) *)
-Theorem C09_class1_char8_refuted :
-  refutes V1 LE (TStruct Final [(mk 0, TPrim PChar8); (mk 1, TPrim PU8)])
-          (VData [(0, VP KChar8 233); (1, VP KU8 9)]) 1.
-Proof. exact witness_char8. Qed.
-
-Theorem C09_class2_float128_xcdr1_refuted :
-  refutes V1 LE (TStruct Final [(mk 0, TPrim PU64); (mk 1, TPrim PF128)])
-          (VData [(0, VP KU64 7); (1, VP KF128 9)]) 2.
-Proof. exact witness_float128. Qed.
+(* the inputs of the two repaired defects (former classes 1 and 2) round-trip now *)
+Theorem C09_repaired_inputs_roundtrip :
+  (let t := TStruct Final [(mk 0, TPrim PChar8); (mk 1, TPrim PU8)] in
+   let x := VData [(0, VP KChar8 233); (1, VP KU8 9)] in
+   exists bytes, encode V1 LE t x = Ok bytes /\ decode t bytes = Ok x) /\
+  (let t := TStruct Final [(mk 0, TPrim PU64); (mk 1, TPrim PF128)] in
+   let x := VData [(0, VP KU64 7); (1, VP KF128 9)] in
+   exists bytes, encode V1 LE t x = Ok bytes /\ decode t bytes = Ok x).
+Proof. exact regression_char8_float128. Qed.
 
 Theorem C09_class3_optional_xcdr1_refuted :
   refutes V1 LE (TStruct Final [(mko 0, TPrim PI32); (mk 1, TPrim PI32)])
@@ -120,8 +121,7 @@ Print Assumptions C09_S1_classes.
 Print Assumptions C09_roundtrip_S2.
 Print Assumptions C09_roundtrip_all_types_partial.
 Print Assumptions C09_padding_recorded.
-Print Assumptions C09_class1_char8_refuted.
-Print Assumptions C09_class2_float128_xcdr1_refuted.
+Print Assumptions C09_repaired_inputs_roundtrip.
 Print Assumptions C09_class3_optional_xcdr1_refuted.
 Print Assumptions C09_S3_lc5_primitive_sequence_refuted.
 Print Assumptions C09_S3_nested_mutable_xcdr2_refuted.
